@@ -4,4 +4,4 @@ go 1.21
 
 require github.com/db47h/decimal v0.0.0
 
-replace github.com/db47h/decimal => /tmp/refac1
+replace github.com/db47h/decimal => /repo
